@@ -95,6 +95,7 @@ class SimFile:
         end = self._pos + len(raw)
         self._data[self._pos:end] = raw
         self._pos = end
+        self._w.touch(self.name)
 
     def flush(self):
         if self.closed:
@@ -167,6 +168,9 @@ class World:
         self.fired = []            # (step, fault) for faults that actually fired
         self._counts = {}
         self.escapes = []
+        self.rerouted = {}         # real function name -> calls served by the world (library reached it outside the module globals)
+        self.ticks = 0             # logical clock for modification times: one tick per modification
+        self.mtimes = {}           # abs path -> tick of the last modification
 
     # ------------------------------------------------------------------ cloning
     def clone(self):
@@ -182,7 +186,13 @@ class World:
         w.step = self.step
         w.draws = list(self.draws)
         w.journal = list(self.journal)
+        w.ticks = self.ticks
+        w.mtimes = dict(self.mtimes)
         return w
+
+    def touch(self, p):
+        self.ticks += 1
+        self.mtimes[p] = self.ticks
 
     # ------------------------------------------------------------------ journal / faults
     def journal_add(self, kind, path=None, a=None, b=None):
@@ -312,9 +322,11 @@ class World:
                 raise oserror("EACCES", path)
             self.files[p] = bytearray()
             self.journal_add("create", p)
+            self.touch(p)
         if kind == "w":
             if len(self.files[p]):
                 self.journal_add("truncate", p, 0)
+                self.touch(p)
             del self.files[p][:]
         return SimFile(self, p, mode, self.files[p])
 
@@ -333,6 +345,7 @@ class World:
         if posixpath.dirname(d) in self.unwritable:
             raise oserror("EACCES", dst)
         self.files[d] = self.files.pop(s)
+        self.touch(d)
 
     def remove(self, path):
         p = self.abspath(path)
@@ -366,12 +379,15 @@ class World:
         import stat as _stat
         p = self.abspath(path)
         self.journal_add("stat", p)
+        def result(mode, size):
+            t = 1_700_000_000 + self.mtimes.get(p, 0)          # one simulated second per modification
+            ino = 1000 + sum(p.encode()) % 100000
+            return _real_os.stat_result((mode, ino, 1, 1, 0, 0, size, t, t, t, float(t), float(t), float(t),
+                                         t * 10 ** 9, t * 10 ** 9, t * 10 ** 9))
         if p in self.files:
-            mode = _stat.S_IFREG | (0o000 if p in self.unreadable else 0o600)
-            return _real_os.stat_result((mode, 0, 0, 1, 0, 0, len(self.files[p]), 0, 0, 0))
+            return result(_stat.S_IFREG | (0o000 if p in self.unreadable else 0o600), len(self.files[p]))
         if p in self.dirs:
-            mode = _stat.S_IFDIR | (0o500 if p in self.unwritable else 0o700)
-            return _real_os.stat_result((mode, 0, 0, 1, 0, 0, 4096, 0, 0, 0))
+            return result(_stat.S_IFDIR | (0o500 if p in self.unwritable else 0o700), 4096)
         parent = posixpath.dirname(p)
         raise oserror("ENOTDIR" if parent in self.files else "ENOENT", path)
 
@@ -392,6 +408,8 @@ class World:
     def poke(self, path, data):
         p = self.abspath(path)
         self.dirs.add(posixpath.dirname(p))
+        if p not in self.files or bytes(self.files[p]) != bytes(data):
+            self.touch(p)
         self.files[p] = bytearray(data)
 
     def unlink_quiet(self, path):
